@@ -72,7 +72,7 @@ TEXT = {
         "technique": "runtime monitoring: forgery catalogue against real stores; event-bus and index-getter snapshot oracle at marker-defined quiescence",
     },
     "C04": {
-        "text": "Exploration: histories of metadata operations (exhaustive over a reduced alphabet up to length 2-3, seeded random up to length 10-14; one writer, two causally ordered writers, two concurrent writers; account, contact and multi-member groups) are written through the real "
+        "text": "Exploration: histories of metadata operations (exhaustive over a reduced account alphabet and over the contact-group and multi-member alphabets up to length 2-3, seeded random up to length 10-14; one writer, two causally ordered writers, two concurrent writers; account, contact and multi-member groups) are written through the real "
                 "MetadataStore API and replayed on fresh replicas by delivery plans (one batch, entry by entry, random compositions, both head orders) with a reopen at a random step and repeated re-indexing; every delivered prefix is compared with a reference latest-wins index, all replicas with the full set with each other.",
         "note": "Each history uses a fresh synthetic group object; delivery is a real OrbitDB replication batch (Sync + replicator) between stores sharing one mock IPFS node. Viewer-dependent parts (secrets-sent set, other member's alias) are not compared across members.",
         "technique": "runtime monitoring: reference-model and replica-equality oracle over delivery plans, reopen and re-index of real OrbitDB logs",
